@@ -55,9 +55,14 @@ var properties = []Property{
 		NotDecided:  "observational equivalence of optimized and unoptimized programs in general.",
 		Assumptions: commonAssumptions},
 	{ID: "C13", Title: "invalid scripts are rejected", Level: "other",
-		Rules:       []string{"R-ERRPROP"},
-		Explanation: "SSA dataflow: every error-valued call in library code has its error looked at, and no function that returns an error returns nil inside the branch where a callee's error is non-nil.",
+		Rules:       []string{"R-NILERR", "R-ERRPROP", "R-BLOCKOPEN", "R-TOPSTOP", "R-TERNGUARD", "R-LOCALGUARD"},
+		Explanation: "SSA dataflow over the parser and compiler: a parse function returns nil only after an error was recorded (must-dataflow with callee summaries, through the registered parselet tables), Parse turns a non-empty error list into an error, every error-valued call has its error looked at and never replaced by nil, blocks are parsed only after '{' was demanded, the top-level loop stops only at end of input, nested ternaries and `local` outside functions are rejected.",
 		NotDecided:  "that each individual syntax check is the right check (needs a grammar as oracle).",
+		Assumptions: commonAssumptions},
+	{ID: "C12", Title: "precedence and grouping", Level: "other",
+		Rules:       []string{"R-PRECTABLE", "R-PRATT", "R-INFIXSET", "R-TERNGUARD"},
+		Explanation: "The four facts that are the grouping semantics of a Pratt parser are read from the code: the order of the binding powers against the documented chain, strictness of the loop comparison, capture of the operator's binding power before the parser advances, agreement between the infix table and the precedence table; plus the nested-ternary guard.",
+		NotDecided:  "the '.' rewrite of field access, postfix ++/-- being separate statements, what the compiler does with the tree.",
 		Assumptions: commonAssumptions},
 	{ID: "C18", Title: "well-formed code", Level: "other",
 		Rules:       []string{"R-EMITLEN", "R-HANDLERS", "R-PATCHALL", "R-JOINPH", "R-JUMPSET", "R-OPBOUNDARY", "R-NARROW"},
